@@ -150,6 +150,14 @@ class Real:
         self.cli = {c: RecClient(c) for c in uni.clients}
         self.acc = uni.accepts()
 
+    registrations = 0
+
+    def device_object(self, did):
+        for x in self.router.devices:
+            if getattr(x, "did", None) == did or getattr(x, "_vf_id", None) == did:
+                return x
+        raise LookupError(f"device {did!r} was registered with the router but the router no longer knows it")
+
     def apply(self, op):
         """Returns (deliveries as sorted list, exception or None)."""
         del self.log[:]
@@ -160,13 +168,19 @@ class Real:
         try:
             if kind == "regdev":
                 d = op[1]
+                # The application does not necessarily keep the device object (`Camera(router=router)` as a statement): the
+                # harness keeps NO reference of its own to devices, it finds them again through the router.
                 if d in self.uni.real_drivers:
                     drv = driver_class(d)(router=self.router)   # registers itself
                     drv._vf_log, drv._vf_id, drv._vf_react = self.log, d, self.react
-                    self.dev[d] = drv
+                    del drv
                 else:
-                    self.dev[d] = self.RecDevice(d, self.acc[d])
-                    self.router.register_device(self.dev[d])
+                    self.router.register_device(self.RecDevice(d, self.acc[d]))
+                self.dev[d] = True
+                import gc
+                Real.registrations += 1
+                if Real.registrations % 7 == 0:
+                    gc.collect()
             elif kind == "regcli":
                 self.router.register_client(self.cli[op[1]])
             elif kind == "unregcli":
@@ -184,7 +198,7 @@ class Real:
             elif kind == "dsend":
                 msg = make_message(op[2], op[3])
                 self._msg = msg
-                self.router.process_message(msg, sender=self.dev[op[1]])
+                self.router.process_message(msg, sender=self.device_object(op[1]))
             else:
                 raise AssertionError(op)
         except Exception as e:  # noqa
